@@ -12,6 +12,7 @@ CONSTANTS
   FixShort = FALSE
   FixNilReq = FALSE
   FixBadReq = FALSE
+  FixBadKey = FALSE
 CONSTRAINT HighWater
 INVARIANTS TypeOK OwnIndexOnly CorrectModuloKnown
 POSTCONDITION TraceAccepted
